@@ -31,7 +31,7 @@ def compute_all_importances_cy(cnp.ndarray[INT_t, ndim=2] unit_labels, cnp.ndarr
     cdef cnp.ndarray[FLOAT_t, ndim=1] all_importances
     cdef int i, j
     cdef int i_1, i_2
-    cdef float current
+    cdef double current
 
     all_importances = np.zeros([n_units + 1], dtype=FLOAT)
     unit_labels = np.vstack((unit_labels, np.repeat(n_classes, n_test)))
